@@ -198,7 +198,7 @@ class LCAONLDFGenerator:
         for iorb in range(orb_rho_in_iorb.shape[0]):
             orb_rho_in = orb_rho_in_iorb[iorb]
             orb_rho_out = orb_rho_out_iorb[iorb]
-            occd_sigma_in = 2 * np.einsum("xg,xg", rho_in[1:4], orb_rho_in[1:4])
+            occd_sigma_in = 2 * np.einsum("xg,xg->g", rho_in[1:4], orb_rho_in[1:4])
             occd_arg_in_g = orb_rho_in[0] * darg_in_g[0] + occd_sigma_in * darg_in_g[1]
             occd_func_in_g = (
                 orb_rho_in[0] * dfunc_in_g[0] + occd_sigma_in * dfunc_in_g[1]
